@@ -1,5 +1,6 @@
 import RegalModel.Model.Lsp
 import RegalModel.Model.LspCache
+import RegalModel.Model.LspPublish
 /-!
 # C15 — Language-server diagnostics converge to a from-scratch workspace lint
 
@@ -283,3 +284,76 @@ theorem atomic_is_check_then_store_without_gap (s : St) (c : Bool) :
     | some u => by_cases h : u ∈ s.files <;> simp [h]
 
 end RegalModel.LspCache
+
+namespace RegalModel.LspPublish
+
+theorem inv_init : Inv init := by simp [Inv, init]
+
+/-- **publish_inv_step**: with guarded stores and serialized publications every step preserves the invariant. -/
+theorem publish_inv_step (s : St) (e : Ev) (he : Serialized e = true) (h : Inv s) : Inv (step true s e) := by
+  obtain ⟨hh, h⟩ := h
+  cases e with
+  | change => exact ⟨hh, fun hp => by simp [step] at hp⟩
+  | store d =>
+    by_cases hp : s.present = true
+    · have : step true s (.store d) = { s with cache := d } := by simp [step, hp]
+      rw [this]
+      exact ⟨hh, fun hp' => by simp [hp] at hp'⟩
+    · have : step true s (.store d) = s := by simp [step, hp]
+      rw [this]
+      exact ⟨hh, h⟩
+  | delete => exact ⟨hh, fun _ => ⟨rfl, Or.inl rfl⟩⟩
+  | handlerPublish =>
+    simp only [step]
+    cases hq : s.pending with
+    | true =>
+      refine ⟨hh, fun hp => ?_⟩
+      have := h hp
+      simp only [if_true]
+      exact ⟨this.1, Or.inr this.1⟩
+    | false => simpa using ⟨hh, h⟩
+  | publish =>
+    refine ⟨hh, fun hp => ?_⟩
+    have := h hp
+    exact ⟨this.1, Or.inr this.1⟩
+  | workerRead => simp [Serialized] at he
+  | workerNotify => simp [Serialized] at he
+
+theorem publish_inv_run (s : St) (evs : List Ev) (hs : ∀ e ∈ evs, Serialized e = true) (h : Inv s) :
+    Inv (run true s evs) := by
+  unfold run
+  induction evs generalizing s with
+  | nil => exact h
+  | cons e rest ih =>
+    exact ih _ (fun e' he' => hs e' (List.mem_cons_of_mem _ he'))
+      (publish_inv_step s e (hs e (List.mem_cons_self ..)) h)
+
+/-- **removed_uri_shows_nothing**: for EVERY history of changes, guarded stores, deletes and serialized publications
+(any length, any interleaving of the handlers with the workers): whenever no handler is between its delete and its
+clearing notification, the client shows no diagnostics for a uri that is not in the workspace. -/
+theorem removed_uri_shows_nothing (evs : List Ev) (hs : ∀ e ∈ evs, Serialized e = true)
+    (hq : quiescent (run true init evs) = true) (hp : (run true init evs).present = false) :
+    (run true init evs).published = [] := by
+  obtain ⟨_, h⟩ := publish_inv_run init evs hs inv_init
+  rcases (h hp).2 with h' | h'
+  · simp [quiescent, h'] at hq
+  · exact h'
+
+/-- **unserialized_publish_resurrects** (the code before /repo 792e3f5, stores already guarded): a worker reads the
+diagnostics, the file is deleted and the handler clears the client, then the worker's notification goes out. -/
+theorem unserialized_publish_resurrects :
+    let s := run true init [.store ["todo-comment@4"], .workerRead, .delete, .handlerPublish, .workerNotify]
+    s.present = false ∧ quiescent s = true ∧ s.published = ["todo-comment@4"] := by decide
+
+/-- **unguarded_store_resurrects** (before /repo 8be5692 when the delete lands inside the worker's gap): the store
+re-creates the diagnostics of the removed uri and a serialized publication shows them. -/
+theorem unguarded_store_resurrects :
+    let s := run false init [.delete, .handlerPublish, .store ["opa-fmt@0"], .publish]
+    s.present = false ∧ quiescent s = true ∧ s.published = ["opa-fmt@0"] := by decide
+
+/-- the hypotheses of `removed_uri_shows_nothing` are met by a non-trivial history -/
+example : let evs : List Ev := [.store ["a"], .publish, .delete, .store ["b"], .publish, .handlerPublish]
+    (∀ e ∈ evs, Serialized e = true) ∧ quiescent (run true init evs) = true ∧ (run true init evs).present = false := by
+  decide
+
+end RegalModel.LspPublish
